@@ -528,12 +528,13 @@ impl Axecutor {
 
         // Also make sure there's no overlapping area already defined, including code region
         for (i, area) in self.state.memory.iter().enumerate() {
-            if start_addr == area.start {
+            if area_to_resize.is_none() && start_addr == area.start {
                 area_to_resize = Some(i);
+                continue;
             }
 
-            // Make sure the new length doesn't overlap with any other area after it
-            if start_addr + new_size > area.start {
+            // Make sure the new length doesn't overlap with any other area
+            if ranges_overlap(start_addr, new_size, area.start, area.length) {
                 return Err(AxError::from(format!(
                     "Cannot resize section at address {:#x} to length {}, as it overlaps with another section starting at {:#x} (len={})",
                     start_addr, new_size, area.start, area.length
